@@ -153,6 +153,7 @@ type Interp struct {
 	inInit   int
 	curRange      *ssa.Range
 	permSite      int
+	pools         map[*Value][]Value // sync.Pool contents (LIFO)
 	goSeq, goCur  int // goroutines started so far / the one running now (0 = not in a goroutine)
 	permInstances int
 	rangeSites    map[ssa.Instruction]int // range-over-map and channel-receive sites, numbered in the order of first execution
